@@ -30,8 +30,27 @@ fn tick() {
 
 fn build_config(c: &Value) -> BuildConfig {
     let mut b = BuildConfig::new(c["builder"].as_str().unwrap_or("builder:x"), c["app_dir"].as_str().unwrap_or("fixture"));
-    let bps: Vec<BuildpackReference> = c["buildpacks"].as_array().map(|a| a.iter().map(|x| BuildpackReference::Other(x.as_str().unwrap().to_string())).collect()).unwrap_or_else(|| vec![BuildpackReference::Other("some/bp".into())]);
+    // a buildpack reference is a string (Other), {"current": true} or {"workspace": "<id>"}
+    let bps: Vec<BuildpackReference> = c["buildpacks"]
+        .as_array()
+        .map(|a| {
+            a.iter()
+                .map(|x| {
+                    if let Some(s) = x.as_str() {
+                        BuildpackReference::Other(s.to_string())
+                    } else if let Some(id) = x["workspace"].as_str() {
+                        BuildpackReference::WorkspaceBuildpack(id.parse().unwrap())
+                    } else {
+                        BuildpackReference::CurrentCrate
+                    }
+                })
+                .collect()
+        })
+        .unwrap_or_else(|| vec![BuildpackReference::Other("some/bp".into())]);
     b.buildpacks(bps);
+    if let Some(t) = c["target_triple"].as_str() {
+        b.target_triple(t);
+    }
     if let Some(env) = c["env"].as_array() {
         for kv in env {
             b.env(kv[0].as_str().unwrap(), kv[1].as_str().unwrap());
